@@ -1,6 +1,9 @@
 package vsim
 
-import "sync"
+import (
+	"fmt"
+	"sync"
+)
 
 // Mutex replaces sync.Mutex in instrumented code (rule R1). Every acquisition is a
 // parked point: there is deliberately no uncontended fast path, so which of two tasks
@@ -142,8 +145,9 @@ func (m *RWMutex) RUnlock() {
 	}
 	w.mu.Lock()
 	if m.readers <= 0 {
+		st := fmt.Sprintf("lock=%s readers=%d announced=%v active=%v", m.name, m.readers, m.announced, m.active)
 		w.mu.Unlock()
-		panic("vsim: RUnlock of unlocked RWMutex")
+		panic("vsim: RUnlock of unlocked RWMutex (" + st + ")")
 	}
 	m.readers--
 	w.mu.Unlock()
